@@ -82,7 +82,10 @@ Definition judge_qc (flat : list (list pt)) (g2 : Z) (q : qc06) : list Z :=
     let pW := negb (cPanic q) && (negb (cW q =? w) || cWb q) in
     let pCont := negb (cPanic q) && negb (list_eqb Bool.eqb (cCont q) [fills 0 w; fills 1 w; fills 2 w; fills 3 w]) in
     let pC := negb (cPanic q) && (negb (crossings_ok flat p (cC q)) || cCb q) in
-    [ bit pW 4 + bit pCont 8 + bit pC 16 + bit (cPanic q) 64; 0 ].
+    (* parity of the crossing count alone (for rays that are numerically tangent to the curve, where the count itself may
+       legitimately differ by two between the curve and its sampling) *)
+    let pCpar := negb (cPanic q) && (negb (Z.rem (cC q - crossings_up flat p) 2 =? 0) || (cC q <? 0) || cCb q) in
+    [ bit pW 4 + bit pCont 8 + bit pC 16 + bit (cPanic q) 64 + bit pCpar 2048; 0 ].
 
 Definition judge_curve (c : curve06) : list Z := flat_map (judge_qc (vFlat c) (vG2 c)) (vQueries c).
 
@@ -95,9 +98,16 @@ Record fill06 := mkFill06 {
   fCCW : list bool;                 (* Go: CCW() of each subpath *)
   fFilling : list (list bool) }.    (* Go: Filling(rule) for the four rules *)
 
+(** each contour with the other contours *)
+Fixpoint with_others {A} (pre l : list A) : list (A * list A) :=
+  match l with [] => [] | x :: r => (x, pre ++ r) :: with_others (pre ++ [x]) r end.
+(** some vertex of a contour lies on an edge of another contour *)
+Definition touching (P : list (list pt)) : bool :=
+  existsb (fun cr => existsb (fun v => on_boundary (snd cr) v) (fst cr)) (with_others [] P).
+
 Definition judge_fill (c : fill06) : list Z :=
   let P := fContours c in
-  let simple := (count_crossings (all_edges P) 0 =? 0) in
+  let simple := (count_crossings (all_edges P) 0 =? 0) && negb (touching P) in
   let wit_ok := forallb (fun cw => far_path (snd cw) P (fG2 c) && negb (wn [fst cw] (snd cw) =? 0)) (combine P (fWitness c)) in
   if negb (simple && wit_ok && Nat.eqb (length P) (length (fWitness c))) then [0; 9]
   else
